@@ -31,6 +31,16 @@ def signature(d, e, expand=True, neg=False):
                 kids.extend(k[1])
             else:
                 kids.append(k)
+        # constants: `False or x` is x, `True or x` is True (and dually)
+        unit, zero = (('truth', True), ('truth', False)) if op == 'and' \
+            else (('truth', False), ('truth', True))
+        if zero in kids:
+            return zero
+        kids = [k for k in kids if k != unit]
+        if not kids:
+            return unit
+        if len(kids) == 1:
+            return kids[0]
         return (op, tuple(sorted(kids, key=repr)))
     if isinstance(e, ast.UnaryOp) and isinstance(e.op, ast.Not):
         return signature(d, e.operand, expand, not neg)
@@ -41,6 +51,8 @@ def signature(d, e, expand=True, neg=False):
         a, b = e.left, e.comparators[0]
         if op in _SWAP:
             op, a, b = _SWAP[op], b, a
+        # `x - y > 0` is `x > y` (also when the difference sits in a local)
+        a, b = _difference(d, a, b)
         # len(x) > 0 / len(x) != 0 / len(x) >= 1: x is not empty
         if isinstance(a, ast.Call) and isinstance(a.func, ast.Name) and \
                 a.func.id == 'len' and isinstance(b, ast.Constant):
@@ -63,6 +75,8 @@ def signature(d, e, expand=True, neg=False):
             lft, rgt = rgt, lft
         out = ('cmp', lft, op, rgt)
         return ('not', out) if neg else out
+    if isinstance(e, ast.Constant) and isinstance(e.value, bool):
+        return ('truth', e.value != neg)
     if expand and isinstance(e, ast.Name):
         use = d._use_ids(e)
         reaching = [(st, vals) for st, vals in d.defs().get(e.id, [])
@@ -73,6 +87,31 @@ def signature(d, e, expand=True, neg=False):
             return signature(d, reaching[0][1][0], expand, neg)
     at = ('atom', tuple(sorted(d.leaves(e, at=e, with_control=False))))
     return ('not', at) if neg else at
+
+
+def _difference(d, a, b):
+    def value(x):
+        if isinstance(x, ast.Name):
+            use = d._use_ids(x)
+            reaching = [(st, vals) for st, vals in d.defs().get(x.id, [])
+                        if not use or d._can_reach(st, use)]
+            if len(reaching) == 1 and isinstance(reaching[0][0], ast.Assign) \
+                    and len(reaching[0][1]) == 1:
+                return reaching[0][1][0]
+        return x
+
+    def zero(x):
+        return isinstance(x, ast.Constant) and x.value == 0 and \
+            x.value is not False
+    if zero(b):
+        v = value(a)
+        if isinstance(v, ast.BinOp) and isinstance(v.op, ast.Sub):
+            return v.left, v.right
+    if zero(a):
+        v = value(b)
+        if isinstance(v, ast.BinOp) and isinstance(v.op, ast.Sub):
+            return v.right, v.left
+    return a, b
 
 
 from ..rules import (GWF, EXC, mpt, need_func, raise_class,  # noqa: E402
@@ -102,16 +141,15 @@ RAISE_GUARD = (
                          'pull_request.get_approvals()',
                          'pull_request.get_participants()',
                          'settings.approve', 'settings.robot'))))),
-     ('cmp',
+     # missing = required - current; `missing > 0` reads `required > current`
+     ('cmp', ('settings.required_leader_approvals',), '>',
       ('bypass_leader_approval()', 'pull_request.author',
        'pull_request.get_approvals()', 'settings.approve',
-       'settings.project_leaders', 'settings.required_leader_approvals'),
-      '>', ('const', 0)),
-     ('cmp',
+       'settings.project_leaders', 'settings.required_leader_approvals')),
+     ('cmp', ('settings.required_peer_approvals',), '>',
       ('bypass_peer_approval()', 'pull_request.author',
        'pull_request.get_approvals()', 'settings.approve',
-       'settings.required_peer_approvals'),
-      '>', ('const', 0)),
+       'settings.required_peer_approvals')),
      ('atom', ('pull_request.get_change_requests()',)),
      ('not', ('atom', ('bypass_author_approval()', 'pull_request.author',
                        'pull_request.get_approvals()', 'settings.approve',
@@ -510,8 +548,9 @@ STATEMENT_SHAPES = [((),
  (('pull_request.author',),
   ('pull_request.author', 'pull_request.get_approvals()', 'settings.approve'),
   ()),
+ # approvals.add(author) under `if settings.approve`: the guard is kept apart
  (('pull_request.author',),
-  ('pull_request.author', 'pull_request.get_approvals()', 'settings.approve'),
+  ('pull_request.author', 'pull_request.get_approvals()'),
   ('settings.approve',)),
  (('pull_request.get_approvals()',), ('pull_request.get_approvals()',), ()),
  (('pull_request.get_change_requests()',),
